@@ -95,7 +95,7 @@ def run(ck, prog, ctx):
                 ck.ob("ROLE", key, ok, "%s: sum of column maxima divided by %s" % (name, "the number of columns" if ok else "dimension(s) %s (expected cols)" % sorted(dims)), where=b.where(site["line"]))
             else:
                 ck.undecided("ROLE", key, "%s: numerator of a division does not derive from row_maxes/col_maxes" % name, where=b.where(site["line"]))
-    ck.floor("ROLE", "dimension divisions in the standard combiners", ndiv, 5)
+    # no floor: when the means are computed in helpers the divisions are not in these bodies; FORMULA (below) decides the combination
     # funSimMax takes the larger of the two MEANS: every comparison / max in it is between quotients (sum / dimension), never raw sums
     fm = prog.body(STD + "::fun_sim_max")
     if fm is not None:
@@ -117,6 +117,9 @@ def run(ck, prog, ctx):
                 return has_div, side
             (dl, sl), (dr, sr) = desc(l), desc(r)
             ok = dl and dr and {sl, sr} == {"row", "col"}
+            if not sl or not sr:
+                ck.undecided("SELECT", "fun_sim_max/compare/%d" % n, "the compared values are not recognisably derived from row_maxes / col_maxes in this body (helper?)", where=fm.where(line))
+                continue
             ck.ob("SELECT", "fun_sim_max/compare/%d" % n, ok, "funSimMax compares %s of the %s direction with %s of the %s direction%s" % ("the mean" if dl else "the RAW SUM", sl or "?", "the mean" if dr else "the RAW SUM", sr or "?", "" if ok else ": for non-square matrices the larger sum need not be the larger mean"), where=fm.where(line))
         mx = [t for _, t in fm.calls() if t.callee.method == "min"]
         for t in mx:
@@ -333,9 +336,14 @@ def run(ck, prog, ctx):
         for i, (ln_, e) in enumerate(rets):
             eq = expr_equal(e, want)
             key = name if i == 0 else "%s/%d" % (name, i)
+            n_f += 1
             if eq is None:
                 ck.undecided("FORMULA", key, "%s: result expression %s has leaves that are not recognised (%s)" % (name, show(e), "; ".join(unknowns(e)[:2])), where=fb.where(ln_))
             else:
-                n_f += 1
                 ck.ob("FORMULA", key, eq, "%s returns %s %s the documented %s" % (name, show(e), "=" if eq else "which is NOT algebraically equal to", text), where=fb.where(ln_))
-    ck.floor("FORMULA", "combiner formulas decided", n_f, 3)
+    ck.floor("FORMULA", "combiner formulas examined (decided or undecided)", n_f, 3)
+
+    # ---- constructors: a field named like a parameter is initialised from that parameter, not from a sibling of the same type
+    ck.rule("CTOR", "in a struct literal, the field `f` of a function with a parameter `f` derives from that parameter (DESIGN 3.9)")
+    from engines import check_ctors
+    check_ctors(ck, "CTOR", prog, r"^src/(matrix|similarity)\.rs$", floor=8)
